@@ -1,31 +1,54 @@
-(* Correspondence check for C40: one upload (and optionally a delete) of a fresh file
-   id through the primary's real PostHandler / DeleteHandler, replicated by the real
-   ReplicatedWrite / ReplicatedDelete to real replica volume servers; observed: the
-   client-visible statuses and the needle every listed real server reads back. *)
+(* Correspondence check for C40: short histories of uploads (fresh, identical retry, same
+   bytes under other metadata, other bytes, other cookie) and deletes on a few file ids,
+   sent to the primary's real PostHandler / DeleteHandler and replicated by the real
+   ReplicatedWrite / ReplicatedDelete to real replica volume servers whose answers can
+   be made to fail for one step; observed after EVERY step: the client-visible status
+   and the needle every listed real server reads back for every file id of the case. *)
 From Coq Require Import List NArith Bool String.
 From SW Require Export base.Verdict model.ReplWrite.
 Import ListNotations.
 Local Open Scope N_scope.
 
-Record case := {
-  c_put : bool; c_name : string; c_ctype : string;
-  c_enc : N;                       (* 0 plain, 1 gzip stream of the clear bytes, 2 labelled gzip but not gzip *)
-  c_pairs : pairs; c_ts : N; c_ttl_set : bool; c_ttl : N * N; c_cm : bool;
-  c_body_len : N; c_clear_len : N; c_clear_crc : N; c_body_crc : N;
-  c_detect : string; c_gz128 : bool; c_ext_types : list (string * string);
-  c_nrepl : N; c_fault : N; c_delete : bool;
-  i_status : N; i_after : list view; i_del_status : N; i_after_del : list view
+(* ---------- compact constructors used by the generated cases ---------- *)
+
+(* an upload: the client's request and the library oracles on it *)
+Definition U (put : bool) (name ctype : string)
+  (enc : N)                        (* 0 plain, 1 gzip stream of the clear bytes, 2 labelled gzip but not gzip *)
+  (prs : pairs) (ts : N) (ttl_set : bool) (tc tu : N) (cm : bool)
+  (body_len clear_len clear_crc body_crc : N)
+  (detect : string) (gz128 : bool) (ext_types : list (string * string)) : op :=
+  Up {| o_detect := detect; o_gz128 := gz128; o_ext_types := ext_types |}
+     {| q_put := put; q_name := name; q_ctype := ctype;
+        q_gzip := negb (enc =? 0);
+        q_pairs := prs; q_ts := ts; q_ttl_set := ttl_set; q_ttl := (tc, tu);
+        q_cm := cm;
+        q_body := if enc =? 1 then {| b_len := clear_len; b_crc := clear_crc; b_gz := true |}
+                  else {| b_len := body_len; b_crc := body_crc; b_gz := false |} |}.
+
+(* a served needle *)
+Definition V (flags : N) (name mime : string) (prs : pairs) (lastmod tc tu : N) (dec_ok : bool) (len crc : N) : view :=
+  {| so_state := 0; so_flags := flags; so_name := name; so_mime := mime; so_pairs := prs;
+     so_lastmod := lastmod; so_ttl := (tc, tu); so_dec_ok := dec_ok; so_len := len; so_crc := crc |}.
+(* nothing served: 0 the Size = 0 record, 1 not found, 2 deleted, 3 the server does not hold the volume *)
+Definition B (state : N) : view := blank state (state =? 0).
+
+Record hstep := {
+  h_key : N; h_ck : N; h_op : op;
+  h_faults : list N;               (* per listed replica, for this step only *)
+  i_status : N;                    (* what the client was answered *)
+  i_views : list (list view)       (* after the step: per file id of the case, primary first then every listed real server *)
 }.
 
-Definition upload_of (c : case) : upload :=
-  {| u_req := {| q_put := c_put c; q_name := c_name c; q_ctype := c_ctype c;
-                 q_gzip := negb (c_enc c =? 0);
-                 q_pairs := c_pairs c; q_ts := c_ts c; q_ttl_set := c_ttl_set c; q_ttl := c_ttl c;
-                 q_cm := c_cm c;
-                 q_body := if c_enc c =? 1 then {| b_len := c_clear_len c; b_crc := c_clear_crc c; b_gz := true |}
-                           else {| b_len := c_body_len c; b_crc := c_body_crc c; b_gz := false |} |};
-     u_oracles := {| o_detect := c_detect c; o_gz128 := c_gz128 c; o_ext_types := c_ext_types c |};
-     u_nrepl := c_nrepl c; u_fault := c_fault c; u_delete := c_delete c |}.
+Record case := {
+  c_nrepl : N;                     (* locations other than the primary the master lists *)
+  c_lost : bool;                   (* they are volume servers that do not hold the volume *)
+  c_nolookup : bool;               (* the master answers the lookup with an error, or lists fewer locations than the copy count *)
+  c_keys : list N;
+  c_hist : list hstep
+}.
+
+Definition step_of (h : hstep) : step :=
+  {| s_key := h_key h; s_ck := h_ck h; s_op := h_op h; s_faults := h_faults h |}.
 
 Definition view_eqb (a b : view) : bool := same_outcome a b && (so_flags a =? so_flags b).
 
@@ -36,22 +59,57 @@ Fixpoint all2 {A} (f : A -> A -> bool) (l1 l2 : list A) : bool :=
   | _, _ => false
   end.
 
+Fixpoint lookup_views (keys : list N) (vs : list (list view)) (k : N) : list view :=
+  match keys, vs with
+  | k' :: keys', v :: vs' => if k' =? k then v else lookup_views keys' vs' k
+  | _, _ => []
+  end.
+
+Definition is_upload (s : step) : bool := match s_op s with Up _ _ => true | Del => false end.
+
+Record verdict1 := { v_corr : bool; v_prop : bool; v_resid : bool; v_trig : option N; v_nontrivial : bool }.
+
+(* one verdict per step: the model's status and views against the implementation's, the
+   property on the implementation's answers, the trigger on the model's state *)
+Fixpoint walk (c : case) (sy : sys) (h : list hstep) : list verdict1 :=
+  match h with
+  | [] => []
+  | x :: h' =>
+      let s := step_of x in
+      let r := do_step sy s in
+      let kv := lookup_views (c_keys c) (i_views x) (h_key x) in
+      {| v_corr := (i_status x =? snd r)
+                   && all2 (all2 view_eqb) (map (key_views (fst r)) (c_keys c)) (i_views x);
+         (* an acknowledged upload leaves every listed server with the primary's outcome,
+            an acknowledged delete leaves the file served nowhere, and a replica that did
+            not answer this step (or cannot hold the file) is reported *)
+         v_prop := step_consistent s (i_status x) kv
+                   && (Nat.eqb (List.length kv) (S (N.to_nat (c_nrepl c))))
+                   && (if step_blocked s (N.to_nat (c_nrepl c)) || (is_upload s && c_lost c && (0 <? c_nrepl c)) || c_nolookup c
+                       then negb (success (i_status x)) else true);
+         (* what must hold on the implementation's answers even inside the step's trigger:
+            everything but the mime type (trigger 0), the decoded content (triggers 1, 2),
+            only empty records survive an acknowledged delete *)
+         v_resid := step_residual s (step_trigger sy s) (i_status x) kv;
+         v_trig := step_trigger sy s;
+         v_nontrivial := is_upload s && success (i_status x) && existsb (fun v => so_state v =? 0) (tl kv) |}
+      :: walk c (fst r) h'
+  end.
+
+Definition failing (l : list verdict1) : list verdict1 := filter (fun v => negb (v_prop v)) l.
+
 Definition check (c : case) : outcome :=
-  let u := upload_of c in
-  {| o_corr :=
-       (i_status c =? upload_status u) && all2 view_eqb (views_after_upload u) (i_after c)
-       && (if c_delete c
-           then (i_del_status c =? delete_status u) && all2 view_eqb (views_after_delete u) (i_after_del c)
-           else true);
-     (* the property on the implementation's answers: an acknowledged upload leaves every
-        listed replica with the primary's outcome, an acknowledged delete leaves the file
-        deleted everywhere, and an injected replica failure is reported *)
-     o_prop :=
-       upload_consistent (i_status c) (i_after c)
-       && (if c_delete c then delete_consistent (i_del_status c) (i_after_del c) else true)
-       && (if (c_fault c =? 1) || (c_fault c =? 2) || (c_fault c =? 3) then negb (success (i_status c)) else true)
-       && (if ((c_fault c =? 1) || (c_fault c =? 2)) && c_delete c then negb (success (i_del_status c)) else true);
-     o_trig := trigger u;
-     o_nontrivial := success (i_status c) && existsb (fun v => so_state v =? 0) (tl (i_after c)) |}.
+  let vs := walk c (init (c_nrepl c) (c_lost c) (c_nolookup c)) (c_hist c) in
+  {| o_corr := forallb v_corr vs;
+     o_prop := forallb v_prop vs;
+     (* per step: a known finding only when EVERY step on which the property fails is
+        inside a trigger evaluated on that step and the state it starts from, and the rest
+        of the property holds on that step *)
+     o_trig := match failing vs with
+               | [] => None
+               | v :: _ => if forallb (fun w => match v_trig w with Some _ => v_resid w | None => false end) (failing vs)
+                           then v_trig v else None
+               end;
+     o_nontrivial := existsb v_nontrivial vs |}.
 
 Definition summarize_cases (l : list case) : summary := summarize check l.
